@@ -98,10 +98,9 @@ theorem C03_create_calls_documented (o : Opts) (pol : Policy) (pre : Cif) (units
   intro before
   refine ⟨?_, ?_⟩
   · intro code lenient hk
-    exact mkBlock_spec o before code lenient (trace_calls_docOk o pol pre units ⟨h, hr⟩ k _ hk)
+    exact mkBlock_spec o before code lenient (trace_calls_docOk o pol pre units ⟨h, hr⟩ k _ hk).2
   · intro parent code lenient hk cc hg
-    have hd := trace_calls_docOk o pol pre units ⟨h, hr⟩ k _ hk
-    simp only [SOp.docOk] at hd
+    have hd := (trace_calls_docOk o pol pre units ⟨h, hr⟩ k _ hk).2
     apply mkFrame_spec o cc code
     have e : getIn o.norm parent (((storeTrace o pol pre units).take k).foldl (fun c op => op.apply o c) pre) = some cc := hg
     rw [e] at hd
